@@ -197,7 +197,12 @@ def run_part(ctx, texts):
 
 
 def correspondence(ctx, proofs_ok=True):
-    stub_part(ctx)
+    try:
+        stub_part(ctx)
+    except Exception as e:   # the function no longer runs on stub objects (new attribute, new signature): the tie by stubs is broken;
+        # the whole-run part below still decides the property on concrete inputs
+        ctx.violate('corr', f'lcoe-stub:harness:{type(e).__name__}',
+                    f'CalculateLCOELCOHLCOC can no longer be executed on stub objects: {e!r}')
     run_part(ctx, gen_inputs(ctx))
 
 
